@@ -103,6 +103,8 @@ class Ctx:
             return True
         if z3.is_false(cond):
             return False
+        if self.scopes and _mentions(cond, self.scopes):
+            return self._scoped_branch(cond)
         if self.pos < len(self.prefix):
             # replay: every non-trivial branch (forced or forked) is in the prefix, so
             # the replay never depends on a second verdict of the solver
@@ -119,9 +121,6 @@ class Ctx:
         if not ft and not ff:
             raise PathAbort("path condition became infeasible")
         d = bool(ft)
-        if ft and ff and self.scopes and _mentions(cond, self.scopes):
-            raise Unsupported("branch on the generic element inside a generic iteration: %s"
-                              % cond)
         if ft and ff:
             self.pending.append(self.prefix + [False])
             self.nforks += 1
@@ -132,26 +131,37 @@ class Ctx:
         self.solver.add(c)
         return d
 
-    def choose(self, z, n):
-        """n-ary decision: a concrete value 0 <= k < n of the Int term z.  Feasible values are
-        enumerated from models (one solver call per feasible value)."""
-        zs = z3.simplify(z)
-        if z3.is_int_value(zs):
-            return zs.as_long()
-        if self.pos < len(self.prefix):
-            k = self.prefix[self.pos]
-            if isinstance(k, bool) or not isinstance(k, tuple):
-                raise RuntimeError("replay misaligned: expected a choice")
-            k = k[1]
-            self.pos += 1
-            self.pc.append(z == k)
-            self.solver.add(z == k)
-            return k
-        if self.scopes and _mentions(z, self.scopes):
-            raise Unsupported("choice on the generic element inside a generic iteration")
+    def _merger(self):
+        ls = getattr(self, "loop_stack", None)
+        if not ls:
+            raise Unsupported("decision on a generic element outside a mergeable generic iteration")
+        return ls[-1]
+
+    def _scoped_branch(self, cond):
+        """decision that depends on the generic element of an enclosing generic iteration: never
+        recorded in the path prefix; the enclosing loop explores both sides and merges"""
+        ft = self.feasible(cond)
+        ff = self.feasible(z3.Not(cond))
+        if not ft and not ff:
+            raise PathAbort("path condition became infeasible")
+        if ft and ff:
+            d = self._merger().sub_branch()
+        else:
+            d = bool(ft)
+        c = cond if d else z3.Not(cond)
+        self.pc.append(c)
+        self.solver.add(c)
+        if ft and ff:
+            self._merger().sub_pc.append(c)
+        return d
+
+    def _enumerate(self, z, lo=None, hi=None, limit=64):
         vals = []
         self.solver.push()
-        self.solver.add(z >= 0, z < n)
+        if lo is not None:
+            self.solver.add(z >= lo)
+        if hi is not None:
+            self.solver.add(z < hi)
         while True:
             self.nsolver_calls += 1
             r = self.solver.check()
@@ -165,8 +175,40 @@ class Ctx:
                 self.solver.pop()
                 raise Unsupported("non-numeral model value in a finite choice")
             vals.append(v.as_long())
+            if len(vals) > limit:
+                self.solver.pop()
+                raise Unsupported("more than %d feasible values for a symbolic index" % limit)
             self.solver.add(z != v.as_long())
         self.solver.pop()
+        vals.sort()
+        return vals
+
+    def choose(self, z, n=None):
+        """n-ary decision: a concrete value 0 <= k < n of the Int term z.  Feasible values are
+        enumerated from models (one solver call per feasible value)."""
+        zs = z3.simplify(z)
+        if z3.is_int_value(zs):
+            return zs.as_long()
+        if self.scopes and _mentions(z, self.scopes):
+            vals = self._enumerate(z, 0 if n is not None else None, n)
+            if not vals:
+                raise PathAbort("no feasible value for a finite choice")
+            k = self._merger().sub_choose(vals) if len(vals) > 1 else vals[0]
+            self.pc.append(z == k)
+            self.solver.add(z == k)
+            if len(vals) > 1:
+                self._merger().sub_pc.append(z == k)
+            return k
+        if self.pos < len(self.prefix):
+            k = self.prefix[self.pos]
+            if isinstance(k, bool) or not isinstance(k, tuple):
+                raise RuntimeError("replay misaligned: expected a choice")
+            k = k[1]
+            self.pos += 1
+            self.pc.append(z == k)
+            self.solver.add(z == k)
+            return k
+        vals = self._enumerate(z, 0 if n is not None else None, n)
         if not vals:
             raise PathAbort("no feasible value for a finite choice")
         vals.sort()
